@@ -31,6 +31,14 @@ part "history" (E2 style): a measurement is a function of the renderable's CURRE
     as a description), and must satisfy the normal clauses (range; widest word / line for tab-free text; no overflow
     when rendered at the reported values at or above the structural minimum).
 
+    Shared-argument histories (family SH of vf/gen.py): ONE Text object is an argument / kid of a host (Panel /
+    Rule / Columns title, Table title / caption / header / footer, panel / padding / align / constrain / styled kid,
+    table cell, columns item, tree label) and the host's sibling in a group; every history of length <= 3 (thorough
+    <= 4) over {measure group at 100, measure group at 3, render group at 4, measure host, render host} ending in a
+    group measure: that measurement must equal the one of the same group built from separate equal objects, and the
+    shared Text measured alone afterwards must still measure like Text(s) (keys "shared/<slot>/...").
+    The WT family (fixed width options below / above the available width x titles x expand) is in the tree part.
+
 Finding keys: "history/<kind>/measure-differs-from-fresh", "history/<kind>/<clause>",
 "range/<clause>/<kind of the deepest node whose own measurement is out of range>", "fit/<C01 blame key>" (e.g. "fit/table/leading"),
 "text/min", "text/max", "text/max/blank-lines", "text/wrap-at-max", "crash/<Type>/<file>:<function>".
@@ -75,9 +83,9 @@ SIGMA = ["a", " ", gen.WIDE_LAST, "\n", "b", gen.ZERO_LAST]
 
 # families of gen.families(tier) used by the tree part, with their A-set
 TREE_FAMILIES = {
-    "quick": {"D1": A_FULL, "D2": A_SHORT, "D2x1": A_SHORT, "CH3": A_SHORT, "ROT": A_SHORT},
+    "quick": {"D1": A_FULL, "D2": A_SHORT, "D2x1": A_SHORT, "CH3": A_SHORT, "ROT": A_SHORT, "WT": A_FULL},
     "thorough": {"D1": A_FULL, "D1x1": A_FULL, "D2": A_SHORT, "D2x2": A_SHORT, "D3": A_SHORT,
-                 "CH3": A_FULL, "CH4": A_SHORT},
+                 "CH3": A_FULL, "CH4": A_SHORT, "WT": A_FULL},
 }
 TREES_PER_SHARD = {"quick": 200, "thorough": 1500}
 TEXT_LEN = {"quick": 5, "thorough": 7}
@@ -376,8 +384,62 @@ def hist_apply(d, kind, mut, j):
     return [k, o, [_child_j(j)]]
 
 
+SHARED_EVENTS = ("M1", "M2", "R", "hM", "hR")
+
+
+def check_shared_history(case, res):
+    from rich.console import RenderGroup
+    from rich.measure import Measurement
+    from rich.text import Text
+    d, events = case["init"], case["events"]
+    slot = gen.share_slot(d)
+    con = gen.make_console("utf8")
+    A = HIST_A[events[-1]]
+    s = d[2][1][1]["s"]
+    try:
+        bind = {}
+        parts = [gen.build(k, bind) for k in d[2]]
+        group = RenderGroup(*parts)
+        m = None
+        for ev in events:
+            if ev in HIST_A:
+                m = Measurement.get(con, group, HIST_A[ev])
+            elif ev == "hM":
+                Measurement.get(con, parts[0], HIST_A["M1"])
+            else:
+                for _ in con.render(group if ev == "R" else parts[0], con.options.update(width=HIST_W)):
+                    pass
+        want = Measurement.get(con, gen.build(d), A)
+        mt = Measurement.get(con, bind["t"], HIST_A["M1"])
+        want_t = Measurement.get(con, Text(s), HIST_A["M1"])
+    except Exception as e:  # noqa: BLE001
+        res.evaluations += 1
+        res.violate("shared/%s/%s" % (slot, c01.crash_key(e)), case, "%s: %s" % (type(e).__name__, e))
+        return
+    res.evaluations += 1
+    res.sig(("shared", slot.split(".")[0], len(events), events[-1], m[0] == m[1]), nontrivial=len(events) > 1)
+    if tuple(m) != tuple(want):
+        res.violate("shared/%s/measure-differs-from-copies" % slot, case,
+                    "after %r Measurement.get(group, %d) = %r, the group of separate equal objects gives %r"
+                    % (events, A, tuple(m), tuple(want)))
+    prob = _range_problem(m, A)
+    if prob:
+        res.violate("shared/%s/range/%s" % (slot, prob), case, "after %r Measurement.get(group, %d) = %r"
+                    % (events, A, tuple(m)))
+    word, line = _ref(s)
+    if tuple(mt) != tuple(want_t) or mt[1] != line or (word is not None and mt[0] != word):
+        res.violate("shared/%s/text-measure-changed" % slot, case,
+                    "after %r the shared Text(%r) measures %r (now %r), a fresh Text(%r) measures %r"
+                    % (events, s, tuple(mt), bind["t"].plain, s, tuple(want_t)))
+
+
 def gen_histories(tier):
     depth = HIST_DEPTH[tier]
+    for d in gen.family_trees(gen._fam("SH", base="shared", dev=[0], alts=1, fixed=False)):
+        for n in range(1, depth + 1):
+            for evs in itertools.product(SHARED_EVENTS, repeat=n):
+                if evs[-1] in HIST_A:
+                    yield {"part": "history", "kind": "shared", "init": d, "events": list(evs)}
     for si, (kind, init, muts) in enumerate(hist_subjects()):
         alphabet = list(OBSERVERS) + list(muts)
         for n in range(1, depth + 1):
@@ -390,6 +452,8 @@ def check_history(case, res):
     from rich.measure import Measurement
     from rich.text import Text
     kind, init, events = case["kind"], case["init"], case["events"]
+    if kind == "shared":
+        return check_shared_history(case, res)
     con = gen.make_console("utf8")
     A = HIST_A[events[-1]]
     pattern = []
@@ -569,7 +633,9 @@ def describe(tier, seed, res):
                  "widest word differs from its widest line or is clamped by A. history part: %d subjects (7 Text x 19 "
                  "in-place mutators; Table, Tree, Columns, RenderGroup, Panel, Padding, Align, Constrain, Styled with their "
                  "public mutations) x every history of length <= %d over {measure at 100, measure at 3, render at 4, "
-                 "mutator_i} ending in a measure = %d histories; non-trivial when a mutation follows a measure / render."
+                 "mutator_i} ending in a measure, plus the 68 shared-argument groups of gen family SH x every history of the same "
+                 "length over {measure group at 100 / at 3, render group, measure host, render host} ending in a group measure "
+                 "= %d histories; non-trivial when a mutation follows a measure / render (shared: more than one event)."
                  % ("; ".join(parts), res.counters.get("trees_wrapped", 0), list(A_SHORT),
                     res.counters.get("strings", 0), TEXT_LEN[tier], TEXT_OPT_LEN[tier], res.counters.get("renders", 0),
                     len(hist_subjects()), HIST_DEPTH[tier], res.counters.get("histories", 0))),
